@@ -90,6 +90,111 @@ Section CacheP.
     - left; lia.
     - right; reflexivity.
   Qed.
+
+  (* ---- progress: a call needs at most three of ITS OWN steps, whatever the others do ---- *)
+
+  Lemma nth_error_update_eq {A} : forall (l : list A) i x k, nth_error l i = Some k -> nth_error (update l i x) i = Some x.
+  Proof.
+    induction l as [|y r IH]; intros i x k H; destruct i; cbn in *; try discriminate; [reflexivity|].
+    eapply IH; exact H.
+  Qed.
+
+  Lemma nth_error_update_neq {A} : forall (l : list A) i j x, i <> j -> nth_error (update l i x) j = nth_error l j.
+  Proof.
+    induction l as [|y r IH]; intros i j x H; destruct i, j; cbn; try reflexivity; try congruence.
+    apply IH. congruence.
+  Qed.
+
+  Lemma step_self st i k : nth_error (snd st) i = Some k ->
+    nth_error (snd (step fs st i)) i = Some (snd (step_call fs (fst st) k)).
+  Proof.
+    intros H. unfold step. rewrite H. destruct (step_call fs (fst st) k) as [c' k'] eqn:E. cbn.
+    eapply nth_error_update_eq; exact H.
+  Qed.
+
+  Lemma step_other st i j : i <> j -> nth_error (snd (step fs st i)) j = nth_error (snd st) j.
+  Proof.
+    intros H. unfold step. destruct (nth_error (snd st) i) as [k|]; [|reflexivity].
+    destruct (step_call fs (fst st) k) as [c' k']. cbn. apply nth_error_update_neq. exact H.
+  Qed.
+
+  Lemma step_call_rank c k :
+    rank (c_pc (snd (step_call fs c k))) <= rank (c_pc k) - 1 /\ c_path (snd (step_call fs c k)) = c_path k.
+  Proof.
+    unfold step_call. destruct (c_pc k) eqn:E; cbn.
+    - destruct (cache_get _ _); cbn; split; auto; lia.
+    - destruct (fs _); cbn; split; auto; lia.
+    - split; auto.
+    - rewrite E. cbn. split; auto.
+  Qed.
+
+  Theorem run_progress : forall schedule st i k,
+    nth_error (snd st) i = Some k ->
+    exists k', nth_error (snd (run fs st schedule)) i = Some k' /\
+               rank (c_pc k') <= rank (c_pc k) - count_occ Nat.eq_dec schedule i /\
+               c_path k' = c_path k.
+  Proof.
+    induction schedule as [|j r IH]; intros st i k H.
+    - exists k. cbn. repeat split; auto. lia.
+    - cbn [run fold_left]. destruct (Nat.eq_dec j i) as [->|Hne].
+      + pose proof (step_self st i k H) as Hs.
+        destruct (IH (step fs st i) i _ Hs) as (k' & H1 & H2 & H3).
+        destruct (step_call_rank (fst st) k) as (R1 & R2).
+        exists k'. split; [exact H1|]. split; [|congruence].
+        cbn [count_occ]. destruct (Nat.eq_dec i i); [|congruence]. lia.
+      + assert (Hs : nth_error (snd (step fs st j)) i = Some k) by (rewrite step_other; auto).
+        destruct (IH (step fs st j) i k Hs) as (k' & H1 & H2 & H3).
+        exists k'. split; [exact H1|]. split; [|exact H3].
+        cbn [count_occ]. destruct (Nat.eq_dec j i); [congruence|]. exact H2.
+  Qed.
+
+  Lemma rank_le_3 p : rank p <= 3.
+  Proof. destruct p; cbn; lia. Qed.
+
+  Lemma rank_0_done p : rank p = 0 -> exists r, p = PDone r.
+  Proof. destruct p; cbn; intros H; try discriminate. eexists; reflexivity. Qed.
+
+  (* no deadlock, no waiting: as soon as the scheduler has let a thread take three steps, its call has
+     returned — with the content of its own file — whatever the other threads did in between *)
+  Theorem call_completes : forall schedule c0 calls i k,
+    cache_ok c0 -> Forall (fun k => c_pc k = PStart) calls ->
+    nth_error calls i = Some k ->
+    3 <= count_occ Nat.eq_dec schedule i ->
+    exists k', nth_error (snd (run fs (c0, calls) schedule)) i = Some k' /\
+               c_path k' = c_path k /\ c_pc k' = PDone (fs (c_path k)).
+  Proof.
+    intros schedule c0 calls i k Hc Hs Hn Hcount.
+    destruct (run_progress schedule (c0, calls) i k Hn) as (k' & H1 & H2 & H3).
+    pose proof (rank_le_3 (c_pc k)) as R.
+    assert (R0 : rank (c_pc k') = 0) by lia.
+    destruct (rank_0_done _ R0) as (r & Er).
+    exists k'. split; [exact H1|]. split; [exact H3|].
+    rewrite Er. f_equal. rewrite <- H3. eapply no_crosstalk; eauto.
+  Qed.
+
+  (* the same failure alone, in a fresh process (empty cache): three steps, same answer *)
+  Lemma alone_result path :
+    exists k', nth_error (snd (run fs ([], [{| c_path := path; c_pc := PStart |}]) [0; 0; 0])) 0 = Some k' /\
+               c_pc k' = PDone (fs path).
+  Proof.
+    destruct (call_completes [0; 0; 0] [] [{| c_path := path; c_pc := PStart |}] 0 {| c_path := path; c_pc := PStart |})
+      as (k' & H1 & _ & H3); auto.
+    - intros p s H. discriminate.
+    - exists k'. split; assumption.
+  Qed.
+
+  (* C17, history and concurrency independence of what a report is rendered from: under any
+     interleaving, from any (consistent) warm or cold cache, a completed call returned exactly what
+     the same call returns alone in a fresh process *)
+  Theorem same_as_alone : forall schedule c0 calls i k r,
+    cache_ok c0 -> Forall (fun k => c_pc k = PStart) calls ->
+    nth_error (snd (run fs (c0, calls) schedule)) i = Some k -> c_pc k = PDone r ->
+    exists k', nth_error (snd (run fs ([], [{| c_path := c_path k; c_pc := PStart |}]) [0; 0; 0])) 0 = Some k' /\
+               c_pc k' = PDone r.
+  Proof.
+    intros schedule c0 calls i k r Hc Hs Hn Hr.
+    rewrite (no_crosstalk schedule c0 calls k i Hc Hs Hn r Hr). apply alone_result.
+  Qed.
 End CacheP.
 
 (* ---- the guard ------------------------------------------------------------------ *)
